@@ -78,16 +78,23 @@ def parseFrameToks : List String → Option Frame
     pure (.body ch payload)
   | _ => none
 
+/-- `err:<kind>`: the transport call fails with that `io::ErrorKind`.  The code treats every kind
+    other than `WouldBlock` alike (`_ => Err(..)` in `read_from` / `write_to_stream`), and so does
+    the model: the kind is not part of the model's alphabet. -/
+def errKinds : List String :=
+  ["err:reset", "err:aborted", "err:refused", "err:notconnected", "err:brokenpipe", "err:timedout",
+   "err:interrupted", "err:unexpectedeof", "err:invaliddata", "err:permission", "err:other"]
+
 def parseReadEv (s : String) : Option FrameBuffer.ReadEv :=
   if s = "wb" then some .wouldBlock
   else if s = "eof" then some .eof
-  else if s = "err" then some .ioErr
+  else if s = "err" || errKinds.contains s then some .ioErr
   else if s.startsWith "c:" then (fromHex (s.drop 2).toString).map .chunk
   else none
 
 def parseWriteStep (s : String) : Option WriteStep :=
   if s = "wb" then some .wouldBlock
-  else if s = "err" then some .err
+  else if s = "err" || errKinds.contains s then some .err
   else if s.startsWith "w:" then (s.drop 2).toString.toNat?.map .accept
   else none
 
